@@ -121,20 +121,40 @@ Definition sprand_consumed (nz : nat) (s : shape) (draws : list (list (list Z)))
 Definition sprand (nz : nat) (s : shape) (draws : list (list (list Z))) (vals : list V) : sparse V :=
   mkSp s (sprand_subs nz s draws) vals.
 
-(* the request: a rational p/q (q > 0). from_function: reject p/q < 0 and p/q >= total; p/q < 1 is a
-   density (count = ceil(total * p/q)); otherwise count = floor(p/q) *)
-Definition norm_request (total : nat) (p : Z) (q : positive) : option nat :=
+(* the request: a rational p/q (q > 0). sptensor.from_function: reject p/q < 0 and p/q >= total; p/q < 1 is a
+   density, count = ceil(prod(shape) * nonzeros) — pyttb forms that product in double arithmetic, so the ROUNDED
+   product r = rn/rd is an input of the faithful model (norm_request_fl); otherwise count = floor(p/q).
+   A count of zero is admissible (repair C20-N2): the redraw loop does not run, the empty tensor is returned. *)
+Definition zceil (n : Z) (d : positive) : Z := (- ((- n) / Zpos d))%Z.
+Definition norm_request_fl (total : nat) (p : Z) (q : positive) (rn : Z) (rd : positive) : option nat :=
   let t := Z.of_nat total in
   if (p <? 0)%Z || (t * Zpos q <=? p)%Z then None
-  else if (p <? Zpos q)%Z then Some (Z.to_nat (- ((- (t * p)) / Zpos q)))
+  else if (p <? Zpos q)%Z then Some (Z.to_nat (zceil rn rd))
   else Some (Z.to_nat (p / Zpos q)).
-(* sptenrand(shape, density = p/q): what the property asks for (floor(total * density) entries) ... *)
+(* ... with the exact product total * p/q in place of the rounded one *)
+Definition norm_request (total : nat) (p : Z) (q : positive) : option nat :=
+  norm_request_fl total p q (Z.of_nat total * p) q.
+(* what the property asks of a request: ANY count up to the tensor size (a value below one is a density);
+   differs from norm_request only at p/q = total (finding C20-N3, open) *)
+Definition norm_request_spec (total : nat) (p : Z) (q : positive) : option nat :=
+  let t := Z.of_nat total in
+  if (p <? 0)%Z || (t * Zpos q <? p)%Z then None
+  else if (p <? Zpos q)%Z then Some (Z.to_nat (zceil (t * p) q))
+  else Some (Z.to_nat (p / Zpos q)).
+
+(* sptenrand(shape, density = p/q): the guard 0 < density <= 1, then (repair C20-N1)
+   valid_nonzeros = int(floor(prod(shape) * density)) — an INTEGER count, handed to from_function.
+   The double product r = rn/rd is again an input of the faithful model. *)
+Definition sptenrand_guard (p : Z) (q : positive) : bool := (0 <? p)%Z && (p <=? Zpos q)%Z.
+Definition sptenrand_count_fl (total : nat) (p : Z) (q : positive) (rn : Z) (rd : positive) : option nat :=
+  if sptenrand_guard p q then norm_request total (rn / Zpos rd) 1 else None.
+Definition sptenrand_count_impl (total : nat) (p : Z) (q : positive) : option nat :=
+  sptenrand_count_fl total p q (Z.of_nat total * p) q.
+(* what the property asks for: floor(total * density) entries for every density in (0, 1] *)
 Definition sptenrand_count_spec (total : nat) (p : Z) (q : positive) : nat :=
   Z.to_nat (Z.of_nat total * p / Zpos q).
-(* ... and what the code does: valid_nonzeros = total * density is handed to from_function as the request,
-   where a value below one is read as a density AGAIN *)
-Definition sptenrand_count_impl (total : nat) (p : Z) (q : positive) : option nat :=
-  norm_request total (Z.of_nat total * p) q.
+Definition sptenrand_request_spec (total : nat) (p : Z) (q : positive) : option nat :=
+  if sptenrand_guard p q then Some (sptenrand_count_spec total p q) else None.
 
 End Gen.
 
